@@ -45,6 +45,13 @@ func NewGenerator() *Generator {
 
 	walker.RegisterLeaveEnumValueDefinitionVisitor(&visitor)
 
+	// The walker also visits the members of type extensions: they belong to the type that is extended.
+	walker.RegisterObjectTypeExtensionVisitor(&visitor)
+	walker.RegisterInterfaceTypeExtensionVisitor(&visitor)
+	walker.RegisterInputObjectTypeExtensionVisitor(&visitor)
+	walker.RegisterEnumTypeExtensionVisitor(&visitor)
+	walker.RegisterUnionTypeExtensionVisitor(&visitor)
+
 	return &Generator{
 		walker:  &walker,
 		visitor: &visitor,
@@ -98,10 +105,79 @@ func (i *introspectionVisitor) EnterSchemaDefinition(ref int) {
 	i.data.Schema.Description = &description
 }
 
+// enterType makes the description of the named type the current one. A type is described once:
+// its definition and its extensions fill the same FullType, in whatever order the document has them.
+func (i *introspectionVisitor) enterType(name string, kind __TypeKind) {
+	if existing := i.data.Schema.TypeByName(name); existing != nil {
+		i.currentType = existing
+	} else {
+		i.currentType = NewFullType()
+		i.currentType.Name = name
+	}
+	i.currentType.Kind = kind
+}
+
+// leaveType adds the current type to the schema, unless an earlier definition or extension did.
+func (i *introspectionVisitor) leaveType() {
+	if strings.HasPrefix(i.currentType.Name, "__") {
+		return
+	}
+	if i.data.Schema.TypeByName(i.currentType.Name) == nil {
+		i.data.Schema.AddType(i.currentType)
+	}
+}
+
+func (i *introspectionVisitor) EnterObjectTypeExtension(ref int) {
+	i.enterType(i.definition.ObjectTypeExtensionNameString(ref), OBJECT)
+	for _, typeRef := range i.definition.ObjectTypeExtensions[ref].ImplementsInterfaces.Refs {
+		name := i.definition.TypeNameString(typeRef)
+		i.currentType.Interfaces = append(i.currentType.Interfaces, TypeRef{
+			Kind:     INTERFACE,
+			Name:     &name,
+			TypeName: "__Type",
+		})
+	}
+}
+
+func (i *introspectionVisitor) LeaveObjectTypeExtension(ref int) {
+	i.leaveType()
+}
+
+func (i *introspectionVisitor) EnterInterfaceTypeExtension(ref int) {
+	// the interfaces an extension adds are collected by EnterInterfaceTypeDefinition
+	i.enterType(i.definition.InterfaceTypeExtensionNameString(ref), INTERFACE)
+}
+
+func (i *introspectionVisitor) LeaveInterfaceTypeExtension(ref int) {
+	i.leaveType()
+}
+
+func (i *introspectionVisitor) EnterInputObjectTypeExtension(ref int) {
+	i.enterType(i.definition.InputObjectTypeExtensionNameString(ref), INPUTOBJECT)
+}
+
+func (i *introspectionVisitor) LeaveInputObjectTypeExtension(ref int) {
+	i.leaveType()
+}
+
+func (i *introspectionVisitor) EnterEnumTypeExtension(ref int) {
+	i.enterType(i.definition.EnumTypeExtensionNameString(ref), ENUM)
+}
+
+func (i *introspectionVisitor) LeaveEnumTypeExtension(ref int) {
+	i.leaveType()
+}
+
+func (i *introspectionVisitor) EnterUnionTypeExtension(ref int) {
+	i.enterType(i.definition.UnionTypeExtensionNameString(ref), UNION)
+}
+
+func (i *introspectionVisitor) LeaveUnionTypeExtension(ref int) {
+	i.leaveType()
+}
+
 func (i *introspectionVisitor) EnterObjectTypeDefinition(ref int) {
-	i.currentType = NewFullType()
-	i.currentType.Name = i.definition.ObjectTypeDefinitionNameString(ref)
-	i.currentType.Kind = OBJECT
+	i.enterType(i.definition.ObjectTypeDefinitionNameString(ref), OBJECT)
 	i.currentType.Description = i.definition.ObjectTypeDescriptionNameString(ref)
 	for _, typeRef := range i.definition.ObjectTypeDefinitions[ref].ImplementsInterfaces.Refs {
 		name := i.definition.TypeNameString(typeRef)
@@ -114,10 +190,7 @@ func (i *introspectionVisitor) EnterObjectTypeDefinition(ref int) {
 }
 
 func (i *introspectionVisitor) LeaveObjectTypeDefinition(ref int) {
-	if strings.HasPrefix(i.currentType.Name, "__") {
-		return
-	}
-	i.data.Schema.AddType(i.currentType)
+	i.leaveType()
 }
 
 func (i *introspectionVisitor) EnterFieldDefinition(ref int) {
@@ -172,7 +245,7 @@ func (i *introspectionVisitor) EnterInputValueDefinition(ref int) {
 	}
 
 	switch i.Ancestors[len(i.Ancestors)-1].Kind {
-	case ast.NodeKindInputObjectTypeDefinition:
+	case ast.NodeKindInputObjectTypeDefinition, ast.NodeKindInputObjectTypeExtension:
 		i.currentType.InputFields = append(i.currentType.InputFields, inputValue)
 	case ast.NodeKindFieldDefinition:
 		i.currentField.Args = append(i.currentField.Args, inputValue)
@@ -182,9 +255,7 @@ func (i *introspectionVisitor) EnterInputValueDefinition(ref int) {
 }
 
 func (i *introspectionVisitor) EnterInterfaceTypeDefinition(ref int) {
-	i.currentType = NewFullType()
-	i.currentType.Kind = INTERFACE
-	i.currentType.Name = i.definition.InterfaceTypeDefinitionNameString(ref)
+	i.enterType(i.definition.InterfaceTypeDefinitionNameString(ref), INTERFACE)
 	i.currentType.Description = i.definition.InterfaceTypeDefinitionDescriptionString(ref)
 
 	interfaceNameBytes := i.definition.InterfaceTypeDefinitionNameBytes(ref)
@@ -224,10 +295,7 @@ func (i *introspectionVisitor) EnterInterfaceTypeDefinition(ref int) {
 }
 
 func (i *introspectionVisitor) LeaveInterfaceTypeDefinition(ref int) {
-	if strings.HasPrefix(i.currentType.Name, "__") {
-		return
-	}
-	i.data.Schema.AddType(i.currentType)
+	i.leaveType()
 }
 
 func (i *introspectionVisitor) EnterScalarTypeDefinition(ref int) {
@@ -259,17 +327,12 @@ func (i *introspectionVisitor) EnterScalarTypeDefinition(ref int) {
 }
 
 func (i *introspectionVisitor) EnterUnionTypeDefinition(ref int) {
-	i.currentType = NewFullType()
-	i.currentType.Kind = UNION
-	i.currentType.Name = i.definition.UnionTypeDefinitionNameString(ref)
+	i.enterType(i.definition.UnionTypeDefinitionNameString(ref), UNION)
 	i.currentType.Description = i.definition.UnionTypeDefinitionDescriptionString(ref)
 }
 
 func (i *introspectionVisitor) LeaveUnionTypeDefinition(ref int) {
-	if strings.HasPrefix(i.currentType.Name, "__") {
-		return
-	}
-	i.data.Schema.AddType(i.currentType)
+	i.leaveType()
 }
 
 func (i *introspectionVisitor) EnterUnionMemberType(ref int) {
@@ -282,17 +345,12 @@ func (i *introspectionVisitor) EnterUnionMemberType(ref int) {
 }
 
 func (i *introspectionVisitor) EnterEnumTypeDefinition(ref int) {
-	i.currentType = NewFullType()
-	i.currentType.Kind = ENUM
-	i.currentType.Name = i.definition.EnumTypeDefinitionNameString(ref)
+	i.enterType(i.definition.EnumTypeDefinitionNameString(ref), ENUM)
 	i.currentType.Description = i.definition.EnumTypeDefinitionDescriptionString(ref)
 }
 
 func (i *introspectionVisitor) LeaveEnumTypeDefinition(ref int) {
-	if strings.HasPrefix(i.currentType.Name, "__") {
-		return
-	}
-	i.data.Schema.AddType(i.currentType)
+	i.leaveType()
 }
 
 func (i *introspectionVisitor) LeaveEnumValueDefinition(ref int) {
@@ -314,14 +372,12 @@ func (i *introspectionVisitor) LeaveEnumValueDefinition(ref int) {
 }
 
 func (i *introspectionVisitor) EnterInputObjectTypeDefinition(ref int) {
-	i.currentType = NewFullType()
-	i.currentType.Kind = INPUTOBJECT
-	i.currentType.Name = i.definition.InputObjectTypeDefinitionNameString(ref)
+	i.enterType(i.definition.InputObjectTypeDefinitionNameString(ref), INPUTOBJECT)
 	i.currentType.Description = i.definition.InputObjectTypeDefinitionDescriptionString(ref)
 }
 
 func (i *introspectionVisitor) LeaveInputObjectTypeDefinition(ref int) {
-	i.data.Schema.AddType(i.currentType)
+	i.leaveType()
 }
 
 func (i *introspectionVisitor) EnterDirectiveDefinition(ref int) {
